@@ -92,6 +92,39 @@ def gen_actions_doc(r, tn):
     return {"kind": "actiondoc", "c16_kind": "actions", "qml": "\n".join(L) + "\n", "type_name": tn, "separators": seps}
 
 
+def gen_returns_doc(r, tn):
+    """block bindings with several `return`s whose operands have different static types: null / [] first or last, then an
+    object or list of the right or of the wrong type.  The wrong ones must be refused; whatever is accepted must compile
+    (compile-only)."""
+    valid_only = r.chance(0.4)
+    L = ["import qmluic.QtWidgets", "", "QWidget {", "    id: root", "    QVBoxLayout {",
+         "        SimWidget { id: w1 }", "        SimWidget { id: w2 }", "        SimPanel { id: w3 }"]
+    ptr_ok = ["w2", "w1.peer", "(w3 as SimWidget)", "w2.peer"]
+    ptr_bad = ["w1.model", "root", "w3.model"]
+    lst_ok = ["w1.items", "[w1.text, \"x\"]", "w2.items"]
+    lst_bad = ["w1.text", "w1.intVal"]
+    targets = [("outPeer", "null", ptr_ok, ptr_bad), ("outItems", "[]", lst_ok, lst_bad)]
+    shapes = 0
+    for k in range(r.randint(1, 3)):
+        L.append("        SimWidget {")
+        L.append("            id: t%d" % k)
+        for tgt, empty, ok, bad in r.sample(targets, r.randint(1, 2)):
+            val = r.choice(ok) if (valid_only or r.chance(0.5)) else r.choice(bad)
+            first, second = (empty, val) if r.chance(0.6) else (val, empty)
+            form = r.below(3)
+            if form == 0:
+                body = "{ if (w1.flag) { return %s; } return %s; }" % (first, second)
+            elif form == 1:
+                body = "{ if (w1.flag) { return %s; } else if (w2.flag) { return %s; } return %s; }" % (first, r.choice(ok), second)
+            else:
+                body = "{ switch (w1.intVal) { case 0: return %s; case 1: return %s; default: return %s; } }" % (first, second, r.choice(ok))
+            L.append("            %s: %s" % (tgt, body))
+            shapes += 1
+        L.append("        }")
+    L += ["    }", "}"]
+    return {"kind": "actiondoc", "c16_kind": "returns", "qml": "\n".join(L) + "\n", "type_name": tn, "separators": []}
+
+
 def run_action_case(case, env, stats):
     import re
     probes = stats["probes"]
@@ -130,9 +163,11 @@ def run_action_case(case, env, stats):
 
 
 def gen_case(rng, params, index):
-    kind = rng.weighted([(3, "cascade"), (3, "observers"), (2, "names"), (3, "literals"), (2, "operators"), (3, "facilities"), (3, "general"), (2, "actions")])
+    kind = rng.weighted([(3, "cascade"), (3, "observers"), (2, "names"), (3, "literals"), (2, "operators"), (3, "facilities"), (3, "general"), (2, "actions"), (2, "returns")])
     if kind == "actions":
         return gen_actions_doc(rng.fork("actions"), rng.choice(qtcheck.TYPE_NAMES))
+    if kind == "returns":
+        return gen_returns_doc(rng.fork("returns"), rng.choice(qtcheck.TYPE_NAMES))
     tn = rng.choice(qtcheck.TYPE_NAMES)
     r2 = rng.fork("doc")
     if kind == "general":
@@ -171,7 +206,7 @@ def run_case(case, env):
     if case.get("kind") == "actiondoc":
         viol, fps, sample = run_action_case(case, env, stats)
         if sample is not None:
-            sample["kind"] = "actions"
+            sample["kind"] = case.get("c16_kind")
         return {"violations": viol, "stats": stats, "fingerprints": fps, "sample": sample}
     viol, fps, sample = qtcheck.run_doc_case(case, env, "build", stats, syntax_compilers=SYNTAX)
     out = []
